@@ -163,6 +163,12 @@ def run(ctx):
             law("PM-total-power-unchanged", tp + 1, np.abs(tot_in) ** 2 + 1)
             if noisy:
                 law("PM-noise-rotated-like-signal", p1.noise, PM(optical_signal(x.noise), a, Vpi).signal)
+            # a field stored with a real or an integer dtype (an ideal CW laser, a DAC waveform used as a field): the modulator output is complex all the same
+            xr = np.round(x.signal.real * 8)
+            for xr_ in (xr / 8.0, xr.astype(np.int64)):
+                law("PM-phase-is-pi*u/Vpi", np.atleast_2d(PM(optical_signal(xr_), a, Vpi).signal) + 1, np.atleast_2d(xr_) * np.exp(1j * math.pi * a / Vpi) + 1)
+                law("MZM-real-stored-field=complex-stored-field", np.atleast_2d(MZM(optical_signal(xr_), u, bias, Vpi, loss, ER, pol).signal) + 1,
+                    np.atleast_2d(MZM(optical_signal(np.asarray(xr_, dtype=complex)), u, bias, Vpi, loss, ER, pol).signal) + 1)
             law("drive-kinds-agree-PM", PM(x, electrical_signal(a), Vpi).signal, p1.signal)
             law("drive-kinds-agree-PM", PM(x, 0.75, Vpi).signal, PM(x, np.full(n, 0.75), Vpi).signal)
             # the same voltages stored with a complex dtype (e.g. after an FFT-based filter): same modulation
